@@ -363,9 +363,9 @@ class CFG:
         r = self.reach([self.entry], avoid=[a], labels=labels, include_src=True)
         return b not in r
 
-    def all_dominate(self, As, Bs, labels=None):
+    def all_dominate(self, As, Bs, labels=None, entry=None):
         """Every b in Bs is reachable from entry only via some node of As."""
-        r = self.reach([self.entry], avoid=As, labels=labels, include_src=True)
+        r = self.reach([entry or self.entry], avoid=As, labels=labels, include_src=True)
         return not (set(Bs) & r)
 
 
